@@ -150,7 +150,8 @@ def check_run(r, done_steps, base):
         return v
     # session start: the KEEPALIVE answering the OPEN
     open_at = arrivals[0] if arrivals else None
-    ka_tx = [tm for tm, m in tx if m[0] in ('KA', 'UPDATE')]
+    # the statement says KEEPALIVE: an UPDATE the operator happens to send does not stand in for one
+    ka_tx = [tm for tm, m in tx if m[0] == 'KA']
     if H == 0:
         # M4
         later = [x for x in tx if x[0] > open_at + EPS and x[1][0] != 'UPDATE']
@@ -169,7 +170,7 @@ def check_run(r, done_steps, base):
     if not pts:
         v.append(('C03|M1|no KEEPALIVE in reply to the OPEN|%s' % cls, det))
     elif worst > H / 3.0 + EPS:
-        v.append(('C03|M1|gap between the agent\'s KEEPALIVE/UPDATE transmissions exceeds H/3|%s' % cls,
+        v.append(('C03|M1|gap between the agent\'s KEEPALIVEs exceeds H/3|%s' % cls,
                   dict(det, worst_gap=worst, limit=H / 3.0)))
     # M2 / M3: the session ends exactly H after the last arrival, with NOTIFICATION(4), never earlier
     last_arr = max([a for a in arrivals if closed_at is None or a <= closed_at + EPS] or [open_at])
